@@ -637,6 +637,15 @@ pub fn gen_c06(tier: &str, rng: &mut Rng, emit: &mut Emit) {
         emit.case(40, l(vec![a(30), a(5), body.clone()]));
         emit.case(40, l(vec![a(60), l(vec![body])]));
     }
+    // bodies across 65535 / 65536 bytes, where a Buffer's size integer changes from WordConst to DWordConst
+    for k in 65_526usize..65_540 {
+        let body = l(vec![a(11), bytes(&rng.bytes(k))]);
+        emit.case(40, l(vec![a(42), bytes(b"BIG_"), l(vec![l(vec![a(40), bytes(b"BUF0"), body])])]));
+    }
+    for n in 5458usize..5464 {
+        let ds = (0..n).map(|_| l(vec![a(20), a(rng.below(2)), a(rng.val(32)), a(rng.val(32))])).collect();
+        emit.case(40, l(vec![a(40), bytes(b"_CRS"), l(vec![a(62), l(ds)])]));
+    }
 }
 
 /// C07 at the call sites: one object of every length-prefixed kind, with a filler child swept across the sizes at which
